@@ -16,7 +16,8 @@ EXPLANATION = (
     "with the two exit paths agreeing on how an external joiner is recognised (R4); that the free routines join, "
     "then free, then null the handle, and thread_free releases unit association, key table and descriptor at most/"
     "exactly once (R5); and that termination is a single release-store of TERMINATED with nothing after it for "
-    "named units (R6).  Progress of the join under user-defined schedulers is not decided.")
+    "named units (R6).  Progress of the join under user-defined schedulers is not decided."
+    ' R7 (control dependence): the *_many routines reach the join (and free) call for every non-NULL handle of the array; nothing leaves the loop early.')
 DECLINED = ["'they do return once the target terminates' under arbitrary user schedulers (progress)"]
 ASSUMPTIONS = ["X1 memory orders of the atomic wrappers", "C02.R3: the joiner's BLOCKED state is published after its context is saved"]
 RULES_DOC = dict(common.SHARED_DOC)
